@@ -5,6 +5,7 @@
   Core Lean only; no Mathlib import is needed.
 -/
 import AITB.Props.C20c
+import AITB.Props.C20d
 import AITB.Gen.C20
 namespace AITB.Trie
 
